@@ -124,6 +124,8 @@ struct CaseC10 {
     prefix: Vec<G>,
     branches: Vec<G>,
     nested: bool,
+    /// goals after the disjunction: ONE goal object entered by the states of every branch
+    suffix: Vec<G>,
 }
 
 impl CaseC10 {
@@ -134,11 +136,13 @@ impl CaseC10 {
         } else {
             b.push(G::Conde(self.branches.iter().map(|g| vec![g.clone()]).collect()));
         }
+        b.extend(self.suffix.iter().cloned());
         b
     }
     fn alone(&self, i: usize) -> Vec<G> {
         let mut b = self.prefix.clone();
         b.push(self.branches[i].clone());
+        b.extend(self.suffix.iter().cloned());
         b
     }
     fn text(&self) -> String {
@@ -156,7 +160,7 @@ fn cases(quick: bool) -> Vec<CaseC10> {
                     continue;
                 }
                 // ordered pairs: the first branch runs first and could leak into the second
-                out.push(CaseC10 { prefix: p.clone(), branches: vec![bg[i].clone(), bg[j].clone()], nested: false });
+                out.push(CaseC10 { prefix: p.clone(), branches: vec![bg[i].clone(), bg[j].clone()], nested: false, suffix: vec![] });
             }
         }
         // triples (strided), flat and nested
@@ -172,12 +176,38 @@ fn cases(quick: bool) -> Vec<CaseC10> {
                     if c % stride != 0 {
                         continue;
                     }
-                    out.push(CaseC10 { prefix: p.clone(), branches: vec![bg[i].clone(), bg[j].clone(), bg[k].clone()], nested: c % 2 == 0 });
+                    out.push(CaseC10 { prefix: p.clone(), branches: vec![bg[i].clone(), bg[j].clone(), bg[k].clone()], nested: c % 2 == 0, suffix: vec![] });
+                }
+            }
+        }
+    }
+    // a shared continuation: the same goal object (a closure whose body projects, a delayed
+    // binding, a propagator over all three variables, a nested disjunction) is entered once per
+    // branch state; what one entry does to it must not be seen by the next
+    for p in prefixes() {
+        for sfx in suffixes() {
+            for i in 0..bg.len() {
+                for j in 0..bg.len() {
+                    if i != j {
+                        out.push(CaseC10 { prefix: p.clone(), branches: vec![bg[i].clone(), bg[j].clone()], nested: false, suffix: sfx.clone() });
+                    }
                 }
             }
         }
     }
     out
+}
+
+fn suffixes() -> Vec<Vec<G>> {
+    let x = T::V(0);
+    let y = T::V(1);
+    let z = T::V(2);
+    vec![
+        vec![G::Closure(Box::new(G::Project(vec![0], vec![G::Eq(z.clone(), T::list(vec![T::V(0)]))])))],
+        vec![G::Closure(Box::new(G::Closure(Box::new(G::Eq(z.clone(), x.clone())))))],
+        vec![G::InFd(vec![x.clone(), y.clone(), z.clone()], Dom::Range(0, 3)), G::DistinctFd(T::list(vec![x.clone(), y.clone(), z.clone()]))],
+        vec![G::Closure(Box::new(G::Conde(vec![vec![G::Project(vec![1], vec![G::Eq(z.clone(), T::V(1))])], vec![G::Neq(z.clone(), x.clone())]])))],
+    ]
 }
 
 fn check(c: &CaseC10, index: usize, d: usize) -> (Vec<Violation>, u64, bool) {
@@ -228,7 +258,7 @@ fn check(c: &CaseC10, index: usize, d: usize) -> (Vec<Violation>, u64, bool) {
 pub fn run(ctx: &mut Ctx) {
     let quick = ctx.quick();
     let d = if quick { 0 } else { 1 };
-    ctx.set("rule", json!("E3 metamorphic x E2: for 7 prefixes (none, FD domains, distinctfd over three variables, disequalities, a CLP(Z) constraint with a user-state update, an FD sum, a binding) and every ordered pair (and a stride of triples, flat and nested) of 24 branch goals (bindings, disequalities, domain narrowing, FD propagators incl. distinctfd whose shared constraint object is updated on binding, CLP(Z), user-state updates through fngoal, nested conde, project, fail): the multiset of final states of `prefix, conde { A, B }` (reified query terms, reported disequalities, the per-branch user trail and the open-constraint counter of an instrumented User) equals the union of the branches run alone from the same prefix. distinct_nontrivial = cases with >= 2 combined answers."));
+    ctx.set("rule", json!("E3 metamorphic x E2: for 7 prefixes (none, FD domains, distinctfd over three variables, disequalities, a CLP(Z) constraint with a user-state update, an FD sum, a binding) and every ordered pair (and a stride of triples, flat and nested) of 24 branch goals, alone and followed by one of 4 shared continuations (a closure whose body projects x, a doubly delayed binding, domains + distinctfd over all three variables, a closure around a disjunction of a project and a disequality) that the states of both branches enter (bindings, disequalities, domain narrowing, FD propagators incl. distinctfd whose shared constraint object is updated on binding, CLP(Z), user-state updates through fngoal, nested conde, project, fail): the multiset of final states of `prefix, conde { A, B }` (reified query terms, reported disequalities, the per-branch user trail and the open-constraint counter of an instrumented User) equals the union of the branches run alone from the same prefix. distinct_nontrivial = cases with >= 2 combined answers."));
     ctx.set("deviation_bound", json!(d));
     let cs = cases(quick);
     let sel: Vec<usize> = match &ctx.replay {
